@@ -49,7 +49,7 @@ def run(chk: harness.Check):
         "lists name units of their own quantity and system, and that fraction entries name existing units; D4 compares the key paths used in "
         "units.toml with the string keys build.rs reads; D5-D7 pin the empty-best rejection, alias carry-over and remove→edit→add re-indexing order of the extend "
         "machinery; D8: in finish the best lists and the fractions configuration are computed after apply_extend_groups, which follows SI expansion; D12: a layer's extend block is only ever pushed onto self.extend; D11: every iteration of the quantity-group loop of add_units_file examines the group's best list; D10: every join takes data and precedence from the same incoming layer and joins same-named fields; join_alias_vec / join_prefixes implement Before / After / Override as documented; D9: "
-        "prefixed units are regenerated whole from the edited base unit (ratio = base.ratio * prefix.ratio()). Necessary conditions of 'consistent or rejected'; layer semantics are not decided.")
+        "prefixed units are regenerated whole from the edited base unit (ratio = base.ratio * prefix.ratio()); D13: every generated SI unit is registered with add_unit (no skipped slot in expanded_units). Necessary conditions of 'consistent or rejected'; layer semantics are not decided.")
     chk.trusted = ["tables/panics.toml, narrow_arith.toml, progress.toml", "tomllib parse of units.toml", "synfacts extraction of build.rs string keys"]
     regions, entries = builder_regions(F)
     chk.analysed = {"facts": th, "builder_entry_functions": len(entries), "regions": len(regions)}
@@ -63,6 +63,7 @@ def run(chk: harness.Check):
     d6_alias_carry_over(chk, F)
     d7_reindex_order(chk, F)
     d8_finish_order(chk, F)
+    d13_every_prefix_registered(chk, F)
     d10_precedence(chk, F)
     d11_every_part(chk, F)
     d12_layers_kept(chk, F)
@@ -196,6 +197,39 @@ def d7_reindex_order(chk, F):
                sample=f"{f.where(r)}: remove_unit_rec dominates every join_alias_vec and cannot follow one within an iteration")
     chk.expect(ok_add, "C16.D7-reindex-order", "apply_extend_groups|re-add after edit", f.where(adds[0]),
                "an edited unit is not added back to the index after the edit", sample=f"{f.where(adds[0])}: add_unit reachable after every edit")
+
+
+def d13_every_prefix_registered(chk, F):
+    """The table of generated units of an `expand_si` unit (`expanded_units`) has one slot per SI prefix and is what update_expanded_units
+    and the extend layers use to find them again: in ConverterBuilder::finish every generated unit is registered with add_unit — every
+    cycle of the innermost loop that calls add_unit passes through that call (no `continue` that leaves a slot at its default id 0, which
+    is the first declared unit)."""
+    from c03 import acyclic_without
+    fs = [g for g in F.find("ConverterBuilder::finish") if not g.is_closure()]
+    if len(fs) != 1:
+        chk.fail("anchor-missing", "ConverterBuilder::finish", "", "anchor-missing: ConverterBuilder::finish not found")
+        return
+    f = fs[0]
+    adds = [b for b, t in f.calls() if (callee_key(t) or "").endswith("UnitIndex>::add_unit") or (callee_key(t) or "").endswith("ConverterBuilder::add_unit")]
+    R = "C16.D13-every-prefix"
+    chk.floor(R, "add_unit calls in finish", len(adds), 1, f"{f.file}:{f.line}")
+    for b in adds:
+        sccs = [set(x) for x in f.sccs() if b in x]
+        if not sccs:
+            continue
+        # innermost loop around the call: the loop head is the closest dominating `next()` inside the SCC
+        heads = [hb for hb, ht in f.calls() if (callee_key(ht) or "").endswith(("Iterator>::next", "Iterator::next")) and hb in sccs[0] and f.node_dominates(hb, b)]
+        inner = [h for h in heads if all(f.node_dominates(o, h) for o in heads)]
+        if not inner:
+            continue
+        h = inner[0]
+        body = sorted(x for x in sccs[0] if f.node_dominates(h, x) and h in f.reach_from(x))
+        ok, cyc = acyclic_without(f, body, {b})
+        lines = sorted({f.blocks[x]["term"].get("line") for x in (cyc or []) if f.blocks[x]["term"].get("line")})
+        chk.expect(ok, R, "finish|generated units", f.where(b),
+                   f"an iteration over the generated SI units can go on without registering the unit (through lines {lines}): its slot in expanded_units keeps "
+                   "the default id 0, and a later `extend` of the base unit rewrites the first declared unit instead",
+                   sample=f"{f.where(b)}: every iteration of the loop reaches add_unit")
 
 
 def d8_finish_order(chk, F):
